@@ -11,9 +11,12 @@ by symbolic interpretation of the solver's small arithmetic kernels (no executio
 Not decided: that the merge/split iteration terminates at the global optimum.
 """
 import copy
+import re
+import os
 from fractions import Fraction
 
 from ..facts import AnalysisBroken, walk
+from .. import facts as _facts
 from ..astq import calls, writes, written_field, norm, literal_value
 from ..microai.interp import Interp, Obj, Vec, Box, enumerate_paths, AssertFail, Thrown, Unsupported
 from ..microai.poly import Poly, Rat, to_poly, num_den
@@ -559,9 +562,84 @@ def rule_split_scale(chk, prog):
                                     norm(node["ch"][1])[:60], dn))
 
 
+_SOLVER_CLASSES = ("Constraint", "Variable", "Block", "Blocks", "PositionStats", "Solver", "IncSolver")
+
+
+def rule_double_precision(chk, prog):
+    r = chk.rule("DOUBLE-PRECISION", "the solver's numbers (both copies: classes Constraint, Variable, Block, Blocks, PositionStats, Solver, IncSolver) are "
+                 "doubles throughout: no member of those classes has type float, and no function of them converts a double to float (implicit "
+                 "FloatingCast to `float`, or an explicit cast) -- compute_dfdv stores each child multiplier in Constraint::lm and adds it into "
+                 "the parent's sum, so with weights 6 orders of magnitude apart a single-precision store loses the small negative multiplier "
+                 "that says `split here`, and solve() returns a feasible but non-optimal placement", floor=14)
+    n = 0
+    for ns in ("vpsc", "Avoid"):
+        for cls in _SOLVER_CLASSES:
+            rec = prog.records.get("%s::%s" % (ns, cls))
+            if rec is None:
+                continue
+            n += 1
+            r.count()
+            fl = [f for f in rec.get("fields", []) if re.search(r"\bfloat\b", str(f.get("t", "")))]
+            (r.ok if not fl else r.bad)("%s::%s members" % (ns, cls), "%s:%s" % (os.path.relpath(rec.get("file", "?"), _facts.REPO) if rec.get("file") else "?", rec.get("l", "?")),
+                                        "" if not fl else "member `%s` has type %s: the solver's multipliers / positions lose precision when stored there" % (
+                                            fl[0]["name"], fl[0]["t"]))
+    casts = []
+    n_fn = 0
+    for f in prog.all_functions():
+        if not f.body or not any(str(f.q).startswith("%s::%s::" % (ns, cls)) for ns in ("vpsc", "Avoid") for cls in _SOLVER_CLASSES):
+            continue
+        n_fn += 1
+        for x in f.nodes():
+            if x.get("k") in ("ImplicitCastExpr", "CStyleCastExpr", "CXXStaticCastExpr", "CXXFunctionalCastExpr") and str(x.get("t", "")) == "float":
+                casts.append((f, x))
+    r.count()
+    (r.ok if not casts else r.bad)("no conversion to float in the solver's functions", casts[0][0].loc(casts[0][1]) if casts else "cola/libvpsc", "%d functions" % n_fn if not casts else
+                                   "%s converts a value to float" % casts[0][0].q)
+    if n < 12:
+        raise AnalysisBroken("solver classes not found (%d)" % n)
+
+
+def rule_static_fresh_start(chk, prog):
+    from ..cfg import CFG
+    from ..astq import calls, writes, written_field, norm
+    r = chk.rule("STATIC-SOLVER-FRESH-START", "vpsc::Solver::satisfy (the static solver) places every variable from its CURRENT desired position before the "
+                 "left-to-right merge pass: on every path the block set is rebuilt (`bs = new Blocks(vs)`, each Block computes its position "
+                 "from its variable's desired position) and every constraint is deactivated before Blocks::totalOrder / mergeLeft run -- "
+                 "the counterpart of IncSolver::satisfy's moveBlocks(); without it a second solve(), or targets set after construction, "
+                 "work on stale block positions (non-optimal results, or a binding constraint split and UnsatisfiedConstraint)", floor=2)
+    fn = prog.fn("vpsc::Solver::satisfy")
+    g = CFG(fn)
+    tot = [c for c in calls(fn) if c.get("cname") == "vpsc::Blocks::totalOrder"]
+    if not tot:
+        raise AnalysisBroken("Solver::satisfy: Blocks::totalOrder not found")
+    news = [node for lhs, node, op in writes(fn) if op == "=" and written_field(lhs)[0] == "vpsc::Solver::bs" and any(
+        x.get("k") == "CXXNewExpr" for x in walk(node["ch"][1]))]
+    r.count()
+    w = g.must_precede([n_["id"] for n_ in news], tot[0]["id"]) if news else []
+    (r.ok if w is None else r.bad)("blocks rebuilt before the merge pass", fn.loc(news[0]) if news else fn.loc(tot[0]), "" if w is None else
+                                   "the merge pass can start on the block set of the constructor / an earlier call: block positions computed from "
+                                   "desired positions that may have changed since")
+    deact = [node for lhs, node, op in writes(fn) if op == "=" and written_field(lhs)[0] == "vpsc::Constraint::active" and literal_value_of(node) == "false"]
+    r.count()
+    ok = False
+    if deact:
+        lps = [a for a in fn.ancestors(deact[0]) if a.get("k") == "ForStmt"]
+        ok = bool(lps) and "(i < m)" in norm(lps[0].get("cond")) and g.iteration_can_skip(lps[0], [deact[0]["id"]]) is None and \
+            g.must_precede([x["id"] for x in walk(lps[0].get("cond") or {}) if x.get("id") in g.pos], tot[0]["id"]) is None
+    (r.ok if ok else r.bad)("constraints deactivated before the merge pass", fn.loc(deact[0]) if deact else fn.loc(tot[0]), "" if ok else
+                            "the rebuilt blocks are singletons but constraints may still be marked active from an earlier call")
+
+
+def literal_value_of(node):
+    from ..astq import literal_value
+    return literal_value(node["ch"][1]) if len(node.get("ch", [])) > 1 else None
+
+
 def run(chk):
     prog = chk.load()
     PROG[0] = prog
+    chk.guard(rule_double_precision, chk, prog)
+    chk.guard(rule_static_fresh_start, chk, prog)
     chk.guard(rule_refine_budget, chk, prog)
     chk.guard(rule_split_scale, chk, prog)
     chk.guard(rule_split_threshold, chk, prog)
